@@ -81,6 +81,24 @@ Theorem C14_enabled_parked_is_armed : forall cfg s t x,
 Proof. exact enabled_parked_is_armed. Qed.
 Print Assumptions C14_enabled_parked_is_armed.
 
+(** which messages get a ticker.  The cyclic bit of a transmitter role is computed from the
+    descriptor: ticker_eligible send_type cycle = (send_type = 1 (cyclic)) && (0 < cycle),
+    role_of_descriptor st cyc on = RoleTx / RoleTxOn (ticker_eligible st cyc).  A ticker is armed
+    only for a message that is cyclic AND has a positive cycle time; any other message - event or
+    no send type with a cycle time, cyclic without one - never has a ticker, never takes a tick, and
+    every frame of it answers an event request, however often cyclic transmission is enabled on it *)
+Theorem C14_armed_implies_eligible : forall st cyc on cfg s t x,
+  reachable cfg s -> cfg t = role_of_descriptor st cyc on -> th s t = TTx x -> t_armed x = true ->
+  st = 1 /\ (0 < cyc)%Z.
+Proof. exact armed_implies_eligible. Qed.
+Print Assumptions C14_armed_implies_eligible.
+
+Theorem C14_not_eligible_frames_are_requests : forall cfg s t x,
+  reachable cfg s -> role_cyclic (cfg t) = Some false -> th s t = TTx x ->
+  t_armed x = false /\ t_tk x = 0 /\ t_txd x <= t_acc x.
+Proof. exact not_eligible_frames_are_requests. Qed.
+Print Assumptions C14_not_eligible_frames_are_requests.
+
 (** I6: after a handled disable at most one, already buffered, tick is consumed *)
 Theorem C14_I6_at_most_one_stale_tick : forall cfg s t x,
   reachable cfg s -> th s t = TTx x -> t_armed x = false ->
@@ -345,6 +363,18 @@ Example C14_additions_nonvacuous :
     [TxInit 2; Lock 2; Access 2 (WFlag true); Unlock 2; Apply 2; GetWake 2; Tick 2; TickTake 2] = true /\
   accepts (cfg_of_list [(2, RoleTxOn true)]) [TxInit 2; GetWake 2] = false /\
   accepts (cfg_of_list [(2, RoleTxOn true)]) [TxInit 2; Lock 2; Access 2 (WFlag false)] = false /\
+  (* a failure on a TICK-triggered transmission: accepted up to the error return, nothing after it *)
+  accepts (cfg_of_list [(2, role_of_descriptor 1 1 true)])
+    [TxInit 2; Lock 2; Access 2 (WFlag true); Unlock 2; Apply 2; GetWake 2; Tick 2; TickTake 2;
+     Lock 2; Access 2 WHook; Access 2 WTime; Unlock 2; HookCall 2; HookRet 2 false; Done 2 false] = true /\
+  accepts (cfg_of_list [(2, role_of_descriptor 1 1 true)])
+    [TxInit 2; Lock 2; Access 2 (WFlag true); Unlock 2; Apply 2; GetWake 2; Tick 2; TickTake 2;
+     Lock 2; Access 2 WHook; Access 2 WTime; Unlock 2; HookCall 2; HookRet 2 false; Tick 2; TickTake 2] = false /\
+  (* an event message with a cycle time, a cyclic message without one: enabled, never a tick *)
+  accepts (cfg_of_list [(2, role_of_descriptor 2 1000000 true)])
+    [TxInit 2; Lock 2; Access 2 (WFlag true); Unlock 2; Apply 2; GetWake 2; Tick 2] = false /\
+  accepts (cfg_of_list [(2, role_of_descriptor 1 0 true)])
+    [TxInit 2; Lock 2; Access 2 (WFlag true); Unlock 2; Apply 2; GetWake 2; Tick 2] = false /\
   qrun qinit [QCancel; QConnectCall; QConnectRet true; QReturn true] = None /\
   qrun qinit [QCancel; QConnectCall; QConnectRet true; QSpawn 3; QWorkerRet true; QWorkerRet true; QWorkerRet true; QReturn true] = None.
 Proof. vm_compute. repeat split. Qed.
